@@ -465,6 +465,10 @@ def run(tier, seed):
                       "block=%s params=%s nb=%d nf=%d rb=%r rf=%r keys=%s eq=%s diff/65536=%s" % (
                           c["block"], c["params"], c["nb"], c["nf"], c["rb"], c["rf"], c["keys"], c["eq"], c["diff"]))
 
+    res.coverage["rejected_total"] = j_total = len(rej) + len(brej)
+    res.coverage["rejected_counts_by_tlc"] = dict(frameworks=res.coverage["tlc_runs"][-2]["rejected"], blocks=jb["rejected_n"],
+                                                  listed=j_total)      # TLC lists at most 25 / 12 examples per clause and shard
+
     def nontrivial(r):
         j = jobs[r["jid"]]
         c = j["cfg"]
